@@ -202,3 +202,27 @@ Definition loracle (c : lcase) : bool :=
 (** both at once (the common, green case needs one evaluation only) *)
 Definition pboth (c : pcase) : bool := poracle c && pagree c.
 Definition lboth (c : lcase) : bool := loracle c && lagree c.
+
+(** ** rawpeer suite: the real socket is the answering side; a raw peer counts the ACK packets *)
+Record kcase := mkKcase {
+  kc_cands : list args;     (* the arguments of all calls of the event's ack function (all handlers) *)
+  kc_strict : bool;         (* the calls are sequential in one handler: the first is the head *)
+  kc_seen : list args       (* first argument of every ACK packet received for the id *)
+}.
+
+Definition k_run (first : args) (c : kcase) : state :=
+  run ([LEmit false 0; LEmitStep 0; LPeerAck 0 first] ++ map (LPeerAck 0) (kc_cands c))
+      (init_state cfg_server true).
+
+Definition kagree (c : kcase) : bool :=
+  existsb (fun a => list_eqb args_eqb (map snd (st_psent (k_run a c))) (kc_seen c))
+          (if kc_strict c then firstn 1 (kc_cands c) else kc_cands c).
+
+Definition koracle (c : kcase) : bool :=
+  match kc_seen c with
+  | [a] => if kc_strict c then match kc_cands c with a0 :: _ => args_eqb a a0 | [] => false end
+           else existsb (args_eqb a) (kc_cands c)
+  | _ => false
+  end.
+
+Definition kboth (c : kcase) : bool := koracle c && kagree c.
